@@ -256,7 +256,12 @@ func check(c Case) hx.Verdict {
 	// (c) idempotence
 	o2 := hx.Run(".", out, hx.Opts{Unwrap: &unwrap})
 	if !o2.OK() || o2.Out != out {
-		return hx.Bad("", "second pass differs (err %q):\nfirst:\n%s\nsecond:\n%s", o2.Err, out, o2.Out)
+		sig := ""
+		if o2.OK() && strings.NewReplacer(",}", "}", ",]", "]").Replace(o2.Out) == out {
+			// a flow collection closed right before a comment the emitter holds for it gets a `,` before its bracket
+			sig = "deviant:flow-trailing-comma"
+		}
+		return hx.Bad(sig, "second pass differs (err %q):\nfirst:\n%s\nsecond:\n%s", o2.Err, out, o2.Out)
 	}
 	// classification
 	feat := 0
